@@ -142,6 +142,7 @@ impl Prop for C12 {
         cfg.multi_maker_instances = true;
         cfg.capture_destructured = true;
         cfg.makers_in_dsp = !cx.excluded(KF_MAKER_LEAK);
+        cfg.factories = !cx.excluded(KF_MAKER_LEAK);
         if cx.excluded(KF_ARG_LEAK) {
             cfg.hof = false;
         }
